@@ -28,11 +28,22 @@ Theorem C16_wrapper_shape :
 Proof. repeat split; reflexivity. Qed.
 Print Assumptions C16_wrapper_shape.
 
-(* the four kinds of `def` are the whole domain: finite *)
-Theorem C16_decoration_rejects_non_generators : forall var k,
-  grun_block (d_guards (deco_for var)) k = if spec_accepts var k then None else Some AssertionErrorC.
-Proof. intros [] []; reflexivity. Qed.
+(* the four kinds of `def`, the two states of the global switch (is_enabled(): ENABLE_PEDANTIC unset/"1" or not)
+   and the two kinds of interpreter (assert statements executed / stripped by -O, -OO, PYTHONOPTIMIZE) are the
+   whole domain of a decoration: finite.  GFall: the guards fall through, the wrapper is defined and d_ret
+   (C16_wrapper_shape) is returned *)
+Theorem C16_decoration_rejects_non_generators : forall var k enabled optimize,
+  decorate var (mkDctx k enabled optimize) = if spec_accepts var k then GFall else GRaised AssertionErrorC.
+Proof. intros [] [] [] []; reflexivity. Qed.
 Print Assumptions C16_decoration_rejects_non_generators.
+
+(* the property text makes no exception for disable_pedantic() / ENABLE_PEDANTIC=0 or for python -O: the
+   function of the right kind always gets the wrapper `prog var` the theorems below are about, never an
+   early `return contextmanager(f)` *)
+Theorem C16_wrapper_whatever_switch_and_optimize : forall var enabled optimize,
+  decorate var (mkDctx (kind_of var) enabled optimize) = GFall /\ spec_accepts var (kind_of var) = true.
+Proof. intros [] [] []; split; reflexivity. Qed.
+Print Assumptions C16_wrapper_whatever_switch_and_optimize.
 
 (* everything about one with statement, in one statement *)
 Theorem C16_with_statement : forall var u body w,
@@ -292,3 +303,17 @@ Example C16_example_count :
   NoDup (map u_id us) /\ reached_count us 1 = 1 /\ reached_count us 2 = 1 /\ reached_count us 3 = 0 /\
   forallb setup_ok [mkUse 1 7 SetupOk 9 (CleanRaise KeyboardInterruptC); mkUse 2 8 SetupOk 10 CleanOk] = true.
 Proof. cbv zeta. repeat split; try reflexivity. repeat constructor; cbn; intuition discriminate. Qed.
+
+(* the two new quantifiers are not vacuous: guards that consult the switch, or that are assert statements, are
+   expressible and decide differently in the circumstances the theorems quantify over *)
+Example C16_example_switch_and_optimize_matter :
+  let g_switch := GCons (GIf (CNot CIsEnabled) (GCons (GReturn EarlyContextmanagerF) GNil)) GNil in
+  let g_assert := GCons (GAssert (CAnd (CNot CIsAsyncGenFn) CIsGenFn)) GNil in
+  grun_block g_switch (mkDctx FGenerator true false) = GFall /\
+  grun_block g_switch (mkDctx FGenerator false false) = GReturned EarlyContextmanagerF /\
+  grun_block g_assert (mkDctx FPlain false false) = GRaised AssertionErrorC /\
+  grun_block g_assert (mkDctx FPlain false true) = GFall /\
+  (* and what an early `return contextmanager(f)` would mean for a raising body: no cleanup *)
+  cleanups_of 1 (journal (snd (plain_seq Sync [([mkUse 1 7 SetupOk 9 CleanOk], BodyRaise ValueErrorC)] w0))) = 0 /\
+  cleanups_of 1 (journal (snd (with_seq Sync (prog Sync) [([mkUse 1 7 SetupOk 9 CleanOk], BodyRaise ValueErrorC)] w0))) = 1.
+Proof. vm_compute. repeat split; reflexivity. Qed.
